@@ -37,8 +37,8 @@ def variants(cls, base, schema, types, mins, rnd):
             out.append(("omit-required %s" % a["a"], "reject", n, both))
     # 2./3. exclusivity groups (declared anywhere in the MRO)
     for g in schema[cls]["om"]:
-        if any(byattr[x]["k"] in ("lagg", "lelem") for x in g if x in byattr):
-            continue        # names a repeated child: static finding of C13
+        if any(byattr[x]["k"] == "lelem" for x in g if x in byattr):
+            continue        # names a repeated data element: static finding of C13
         members = [byattr[x] for x in g if x in byattr]
         for m in members:
             n = add_child(base, cls, m, schema, types, mins)
